@@ -193,6 +193,62 @@ def _pair_oracle(args):
             return ('bad', 'the unreferenced block of section %d did not stay in place' % (si + 1), text)
     return ('ok', None, text)
 
+def list_pair_doc(rng):
+    """a block list whose introduction and wrap-up lines carry references with their own FOOTNOTE block right after the line, items with
+    references and blocks of their own, and stray blocks of the SAME markers inside items: the block that the grammar attaches to the
+    intro / wrap-up line is the nearest one for its reference"""
+    ms = rng.sample(PAIR_MARKERS, 2)
+    lines, want, k, strays = ['SEC 1 - headingz', '  ITEMS'], [], 0, 0
+    def pair(ind, where):
+        nonlocal k
+        k += 1; m = rng.choice(ms); tok = 'note%dz' % k; want.append((k, m, tok))
+        return [' ' * ind + '%s ref%dz {{FOOTNOTE %s}} tail%dz' % (where, k, m, k), '', ' ' * ind + 'FOOTNOTE ' + m, ' ' * (ind + 2) + tok + ' more%dz' % k, '']
+    if rng.random() < 0.6: lines += pair(4, 'intro')
+    for it in 'abc'[:rng.randint(1, 3)]:
+        lines.append('    ITEM (%s)' % it)
+        lines.append('      item%sz' % it)
+        r = rng.random()
+        if r < 0.4:
+            strays += 1
+            lines += ['', '      FOOTNOTE ' + rng.choice(ms), '        stray%dz words' % strays, '']
+        elif r < 0.7:
+            lines += pair(6, 'in')
+    if rng.random() < 0.8: lines += pair(4, 'wrap')
+    lines.append('  after the listz')
+    return '\n'.join(lines) + '\n', want, strays
+
+def _list_pair_oracle(args):
+    seed, root = args
+    import random
+    text, want, strays = list_pair_doc(random.Random(seed))
+    try:
+        xml = impl.parser().parse_to_xml(text, root)
+    except Exception as e:
+        return ('raised', impl.exc_kind(e), text)
+    ns = '{%s}' % xmlsx.NS
+    holders = {}
+    for e in xml.iter():
+        if not isinstance(e.tag, str) or e.tag == ns + 'authorialNote': continue
+        t = (e.text or '').split()
+        if len(t) >= 2 and t[1].startswith('ref') and not any(a.tag == ns + 'authorialNote' for a in e.iterancestors()):
+            holders[t[1]] = e
+    for k, m, tok in want:
+        h = holders.get('ref%dz' % k)
+        if h is None: return ('bad', 'the line of reference %d is gone' % k, text)
+        notes = [n for n in h if n.tag == ns + 'authorialNote']
+        if len(notes) != 1 or notes[0].get('marker') != m:
+            return ('bad', 'reference %d (marker %r) became %d notes' % (k, m, len(notes)), text)
+        got = ''.join(notes[0].itertext())
+        if tok not in got:
+            return ('bad', 'the note of reference %d (marker %r, on a list %s line) holds %r, not the block written right after its line (%s)' % (k, m, (h.text or '').split()[0], got, tok), text)
+    left = [p_ for p_ in xml.iter(ns + 'p') if ''.join(p_.itertext()).startswith('FOOTNOTE') and not any(a.tag == ns + 'authorialNote' for a in p_.iterancestors())]
+    if len(left) != strays:
+        return ('bad', '%d FOOTNOTE blocks left as ordinary content, %d expected (the unreferenced ones in the items)' % (len(left), strays), text)
+    for p_ in left:
+        if p_.getparent().tag != ns + 'item':
+            return ('bad', 'an unreferenced block of an item ended up in <%s>' % p_.getparent().tag.split('}')[1], text)
+    return ('ok', None, text)
+
 def _ns_oracle(args):
     """the same text converted by a generator built for another Akoma Ntoso namespace (XmlGenerator(uri, maker=get_maker('2.0')), the
     documented way to target AKN 2.0): footnote resolution is the same document with the other namespace URI"""
@@ -284,6 +340,10 @@ def search(ctx, budget):
             ctx.failures.append(({'stage': 'pairs', 'seed': j[0], 'root': j[1], 'text': r[2]}, r[1]))
         elif r[0] == 'ok':
             ctx.nontrivial(('pairs',) + j)
+    for j, r in zip(pj, impl.pmap(_list_pair_oracle, pj, chunk=16)):
+        ctx.evaluations += 1; ctx.count('list_pairs_' + r[0])
+        if r[0] == 'bad':
+            ctx.failures.append(({'stage': 'list-pairs', 'seed': j[0], 'root': j[1], 'text': r[2]}, r[1]))
     qj = [ctx.rng.randrange(1 << 30) for _ in range(ctx.n(400, 20000) * budget)]
     for j, r in zip(qj, impl.pmap(_quiet_oracle, qj, chunk=32)):
         ctx.evaluations += 1; ctx.count('quiet_tree_' + r[0])
@@ -307,6 +367,8 @@ def replay(obj):
     case = obj.get('case') or (obj.get('disagreements') or [{}])[0].get('case')
     if not case:
         print('nothing to replay:', obj.get('broken_obligations')); return 1
+    if case.get('stage') == 'list-pairs':
+        r = _list_pair_oracle((case['seed'], case['root'])); print(r[:2]); return 1 if r[0] == 'bad' else 0
     if case.get('stage') == 'pairs':
         r = _pair_oracle((case['seed'], case['root'])); print(r[:2]); return 1 if r[0] == 'bad' else 0
     if case.get('stage') == 'quiet':
